@@ -26,7 +26,7 @@ pub fn cfg(ordered_share: u16) -> Cfg {
         Resp::Answers,
         Resp::AnswersUserPanic,
     ];
-    cfg.matchers = vec![MatcherKind::FuncDebug, MatcherKind::FuncDebug, MatcherKind::Func];
+    cfg.matchers = vec![MatcherKind::FuncDebug, MatcherKind::FuncDebug, MatcherKind::Func, MatcherKind::Macro(0)];
     cfg.max_clauses = 3;
     cfg.max_stub_pats = 2;
     cfg.max_chain = 5;
@@ -88,7 +88,7 @@ pub fn run(ctx: &Ctx) -> Verdict {
     let mut v = Verdict::new("exploration", RULE);
     v.explanation = "Model-vs-implementation comparison: the returned tag identifies (pattern, segment), so every match index is checked against the segment arithmetic of the chain; single-use values must panic on the second request. Return values beyond the end of an all-exact chain are not compared (the property does not define them).".into();
     v.assumptions = vec![
-        "DynClause hook assembles the clause list; builder chain and runtime are production code".into(),
+        "each clause is wrapped in the DynClause hook (its builder type is only known at run time); the clause list itself is a production tuple of that arity; builder chain and runtime are production code".into(),
         "build variant: std".into(),
     ];
     v.subs.push(super::replay_corpus(ctx));
